@@ -19,7 +19,8 @@ def check(tier, seed):
     def vary(i, r):
         return {"big": i % 3 == 0, "liveness": True, "stalls": True}
     R.engine(ck, PROP, tier, seed, {"faults": False, "vary": vary}, ("C03",), 160, 8000, proof_ok, nontrivial, "", project=("K",),
-             extra_histories=lambda r, exe, tier: [R.gen_queue_full(r.fork("q%d" % i), exe) for i in range(3 if tier == "quick" else 40)])
+             extra_histories=lambda r, exe, tier: [R.gen_queue_full(r.fork("q%d" % i), exe) for i in range(3 if tier == "quick" else 40)]
+             + [R.gen_restart_completion(r.fork("rs%d" % i), exe) for i in range(6 if tier == "quick" else 60)])
     # sustained load (monitor only; the model has no notion of a slow reader): a finished source repeats its final watermark
     # while another source keeps the shared, slowly drained queue of the same target between half full and full; the
     # target acknowledges everything it is sent.  The finished source must be told its final watermark while the load lasts.
